@@ -669,6 +669,42 @@ def _fn_calls(f):
     return f._callee_names
 
 
+def guarded_by_call(f, bb, callee_suffix):
+    """bb is only reachable through one edge of a switch whose discriminant is (derived from) the result of a
+    call to a function whose path ends with callee_suffix."""
+    for bi in f.rpo:
+        t = f.blocks[bi]["term"]
+        if t["t"] != "switch":
+            continue
+        r = f.root_of(t["discr"], through_named=True)
+        for _ in range(3):
+            if r[0] == "rv" and r[3]["rv"]["k"] == "unop":
+                r = f.root_of(r[3]["rv"]["a"], through_named=True)
+            elif r[0] == "rv" and r[3]["rv"]["k"] == "discr":
+                r = f.root_of({"copy": {"l": r[3]["rv"]["place"]["l"], "p": []}}, through_named=True)
+            else:
+                break
+        if r[0] != "call" or not (M.callee_name(r[2]) or "").endswith(callee_suffix):
+            continue
+        for tgt in set(f.succ[bi]):
+            if bb in D.edge_dominated(f, bi, tgt):
+                return True
+    return False
+
+
+def caller_guards_ok(P, f, guards):
+    """residue rows may state how each caller establishes the callee's precondition:
+    {caller path: callee suffix whose result the caller must test before the call}. Unknown callers fail."""
+    problems = []
+    for g, bi in _callers_of(P, f.path):
+        want = guards.get(g.path)
+        if want is None:
+            problems.append("new caller `%s` (%s)" % (g.path, g.loc(g.blocks[bi]["term"].get("fn_span"))))
+        elif not guarded_by_call(g, bi, want):
+            problems.append("`%s` no longer tests `%s` on the way to the call (%s)" % (g.path, want, g.loc(g.blocks[bi]["term"].get("fn_span"))))
+    return problems
+
+
 def requires_ok(f, req):
     """a residue row names the guards it relies on (callee-name substrings); they must still be called in f."""
     names = _fn_calls(f)
@@ -706,9 +742,14 @@ def run(ctx, res, layers, floor_fns, floor_sites, extra_roots=(), label="PANIC-I
         row = residue.get(k)
         if row and seen[k] <= row.get("count", 1):
             missing = requires_ok(f, row.get("requires", []))
+            cg = caller_guards_ok(P, f, row["caller_guards"]) if row.get("caller_guards") else []
             if missing:
                 res.bad(label, k + " # guard-missing",
                         "reviewed site `%s` relies on %s, which this function no longer calls (%s)" % (k, missing, s.loc()),
+                        s.loc(), {"row": row})
+            elif cg:
+                res.bad(label, k + " # caller-guard",
+                        "reviewed site `%s` relies on its callers establishing a precondition: %s" % (k, "; ".join(cg)),
                         s.loc(), {"row": row})
             else:
                 used_rows.add(k)
